@@ -32,6 +32,7 @@ func C02(c *Ctx) {
 		c02b(c, a)
 		c02c(c, a.V)
 		c02dRuntime(c, a, gDepth)
+		c02dBalance(c, a)
 		c02e(c, a)
 		c01e2(c, a, "C02-f", "at end of input read() consumes nothing but still counts a column, and restore() does nothing when the offset is unchanged: the column an action sees at that offset then depends on how many attempts failed there before")
 	}
@@ -698,4 +699,39 @@ func factSaysEmpty(facts map[string]bool, x string) bool {
 		}
 	}
 	return false
+}
+
+// c02dBalance (C02-d): every evaluator leaves the variable stack as deep as it found it, on every return. A label set
+// left on the stack shifts every enclosing scope by one: code blocks of the enclosing sequence, and of every calling
+// rule, then read and bind their labels in the wrong set (C01-a's stack balance under this property).
+func c02dBalance(c *Ctx, a *absVariant) {
+	r := c.R
+	var names []string
+	for fn := range a.Res {
+		if strings.HasPrefix(fn, "parse") {
+			names = append(names, fn)
+		}
+	}
+	sort.Strings(names)
+	for _, fn := range names {
+		res := a.Res[fn]
+		if res == nil || res.Fn == nil {
+			continue
+		}
+		bad := ""
+		n := 0
+		for _, e := range res.Exits {
+			if isMemoExit(e) {
+				continue
+			}
+			n++
+			if e.State.VS != 0 && bad == "" {
+				bad = fmt.Sprintf("%s returns with the variable stack %+d deep after [%s]: the label set stays on the stack and every enclosing scope - the rest of the sequence, every calling rule - reads and binds its labels one set off", a.where(e, res.Fn), e.State.VS, evString(e))
+			}
+		}
+		if n == 0 {
+			continue
+		}
+		r.Check(bad == "", "C02-d", "T."+fn+":variable-stack-balanced", a.V.Name, a.V.Where(res.Fn.Pos()), fmt.Sprintf("%d abstract exits, variable stack as deep as at entry", n), bad)
+	}
 }
